@@ -454,16 +454,16 @@ def drop_abs_on_parameters(t):
     return subst(t, rw)
 
 
-def rule_deriv(prog, rep, classes):
+def rule_deriv(prog, rep, classes, R="C02.deriv", minimum=14):
     from ..symdiff import NotDifferentiable, diff as sdiff, log_abs
     from ..eqterms import Inconclusive, Poly, Rat, to_rat
-    rep.rule("C02.deriv", "closed-form log-dets against the map actually computed: for elementwise bijections the "
+    rep.rule(R, "closed-form log-dets against the map actually computed: for elementwise bijections the "
                           "log-det equals the full sum of log|d transform / dx| obtained by symbolic differentiation "
                           "(identities: log exp a = a, log sigmoid a = -softplus(-a), log(1 - tanh^2 a) = 2(log 2 - a - "
                           "softplus(-2a))); pure reorderings have log-det 0; the triangular affine map has "
                           "sum log|diag|; the spline's derivative function is d/dx of its own in-bounds formula (exact "
                           "rational identity); planar: log|1 + u^.psi| with psi = h'(w.x+b) w (matrix determinant lemma)",
-             minimum=14)
+             minimum=minimum)
     # leaf classes added since the tables were confirmed get the same elementwise proof attempt
     from ..eqterms import child_methods as _cm
     known = set(ELEMENTWISE_LEAVES) | set(VOLUME_PRESERVING) | set(ITERATIVE) | {
@@ -486,7 +486,7 @@ def rule_deriv(prog, rep, classes):
         try:
             d = sdiff(T, X)
         except NotDifferentiable as e:
-            rep.undecided("C02.deriv", site, k, f"transform not differentiable symbolically: {e}")
+            rep.undecided(R, site, k, f"transform not differentiable symbolically: {e}")
             continue
         la = log_abs(d)
         want = C(0) if la == C(0) else ("call", ("ext", "jax.numpy.sum"), (), (("a", la),))
@@ -496,7 +496,7 @@ def rule_deriv(prog, rep, classes):
         try:
             ok = any(equal(a, b) for a, b in cands)
         except Inconclusive as e:
-            rep.undecided("C02.deriv", site, k, str(e))
+            rep.undecided(R, site, k, str(e))
             continue
         if not ok and q in extra:
             # a class outside the confirmed table: bring the returned log-det to the same log|.| normal form
@@ -511,13 +511,13 @@ def rule_deriv(prog, rep, classes):
             except Inconclusive:
                 ok = False
             if not ok:
-                rep.undecided("C02.deriv", site, k, f"{q} is outside the confirmed table: its log-det {show(got, 120)} "
+                rep.undecided(R, site, k, f"{q} is outside the confirmed table: its log-det {show(got, 120)} "
                                                     f"could not be related to sum log|{show(d, 60)}| by the log identities")
                 continue
         if ok:
-            rep.holds("C02.deriv", site, k, f"dT/dx = {show(d, 80)}")
+            rep.holds(R, site, k, f"dT/dx = {show(d, 80)}")
         else:
-            rep.violated("C02.deriv", site, k,
+            rep.violated(R, site, k,
                          f"transform has derivative {show(d, 120)}, so the log-det must be {show(cands[0][1], 160)}; "
                          f"the method returns {show(cands[0][0], 160)}")
     for q in VOLUME_PRESERVING:
@@ -525,7 +525,7 @@ def rule_deriv(prog, rep, classes):
         T, TL = method_term(prog, c, "transform"), method_term(prog, c, "transform_and_log_det")
         site = method_site(prog, c, "transform_and_log_det")
         pure = not any(s[0] in ("add", "mul", "pow", "matmul") for s in walk(T))
-        rep.check(pure and ld(TL) == C(0), "C02.deriv", site, f"{q}:reordering-has-logdet-0",
+        rep.check(pure and ld(TL) == C(0), R, site, f"{q}:reordering-has-logdet-0",
                   "transform only reorders its input; log-det 0",
                   f"transform {show(T, 80)} / log-det {show(ld(TL), 80)}")
     # triangular affine
@@ -534,7 +534,7 @@ def rule_deriv(prog, rep, classes):
     A = ("attr", SELF, "triangular")
     want = ("call", ("ext", "jax.numpy.sum"), (), (("a", ("call", ("ext", "jax.numpy.log"), (), (("a", ("call", ("ext", "jax.numpy.abs"), (), (("a", ("call", ("ext", "jax.numpy.diag"), (), (("v", A),))),))),))),))
     lin = any(s == ("matmul", A, X) for s in walk(T))
-    rep.check(lin and equal(ld(TL), want), "C02.deriv", method_site(prog, c, "transform_and_log_det"),
+    rep.check(lin and equal(ld(TL), want), R, method_site(prog, c, "transform_and_log_det"),
               "TriangularAffine:logdet==sum log|diag A|", "A @ x with A triangular: log|det| = sum log|diag(A)|",
               f"log-det is {show(ld(TL), 160)} for transform {show(T, 80)}")
     # spline: derivative() is d/dXR of the in-bounds transform formula
@@ -587,17 +587,17 @@ def rule_deriv(prog, rep, classes):
                 num = pd(rt.n) * rt.d - rt.n * pd(rt.d)
                 den = rt.d * rt.d
                 ok = (num * rd.d - rd.n * den).is_zero()
-                rep.check(ok, "C02.deriv", site, "RationalQuadraticSpline:derivative==d/dx(in-bounds transform)",
+                rep.check(ok, R, site, "RationalQuadraticSpline:derivative==d/dx(in-bounds transform)",
                           "exact rational identity d/dx eq.4 == eq.5",
                           "the derivative function is not the derivative of the in-bounds transform formula")
                 done = True
             except Inconclusive as e:
-                rep.undecided("C02.deriv", site, "RationalQuadraticSpline:derivative", str(e))
+                rep.undecided(R, site, "RationalQuadraticSpline:derivative", str(e))
                 done = True
             finally:
                 _eq.BUDGET_LIMIT = old_limit
     if not done:
-        rep.undecided("C02.deriv", site, "RationalQuadraticSpline:derivative", "spline formulas not recognised")
+        rep.undecided(R, site, "RationalQuadraticSpline:derivative", "spline formulas not recognised")
     # planar
     c = prog.cls(PLANAR_U)
     site = method_site(prog, c, "transform_and_log_det")
@@ -633,7 +633,7 @@ def rule_deriv(prog, rep, classes):
         for psi_t in (psi_tanh, psi_cosh):
             if not ok and equal(l, bij.commute_rank1(lemma(("ite", test, psi_l, psi_t)), r1)):
                 ok = True
-    rep.check(ok, "C02.deriv", site, "_UnconditionalPlanar:logdet==log|1+u^.psi|",
+    rep.check(ok, R, site, "_UnconditionalPlanar:logdet==log|1+u^.psi|",
               "psi = h'(w.x+b) w with h' = 1 - tanh^2 (tanh) / where(. < 0, slope, 1) (leaky relu), constrained u^",
               f"log-det is {show(l, 300)}")
 
